@@ -201,14 +201,14 @@ func c13BigStore(r *rng, n int) [][2]string {
 // ---------------------------------------------------------------- one case
 
 type c13Fault struct {
-	Index      int    `json:"fault_at_call"`
-	Call       string `json:"failing_call"`
-	Class      string `json:"error_returned"`
-	Calls      int    `json:"storage_calls_issued"`
-	Prefix     bool   `json:"log_is_prefix_of_fault_free_log"`
-	DataOK     bool   `json:"no_effect_after_the_fault"`
+	Index      int      `json:"fault_at_call"`
+	Call       string   `json:"failing_call"`
+	Class      string   `json:"error_returned"`
+	Calls      int      `json:"storage_calls_issued"`
+	Prefix     bool     `json:"log_is_prefix_of_fault_free_log"`
+	DataOK     bool     `json:"no_effect_after_the_fault"`
 	CallsAfter []string `json:"calls_after_the_fault,omitempty"`
-	Rows       int    `json:"rows_returned"`
+	Rows       int      `json:"rows_returned"`
 }
 
 type c13Replay struct {
